@@ -15,6 +15,7 @@
 -/
 import DltVerif.Model.Fixed
 import DltVerif.Lemmas.Round53
+import DltVerif.Lemmas.FixedExact
 
 namespace Dlt
 
@@ -140,6 +141,91 @@ theorem C18_f32_exact (bits : BitVec 32) (neg : Bool) (m : Nat) (e : Int)
       have := Nat.mod_lt bits.toNat (by decide : 0 < 2 ^ 23)
       omega
 
+theorem Spec.intOf_eq (v : Value) : Spec.intOf v = v.asInt? := by
+  cases v <;> rfl
+
+theorem Spec.offsetOf_eq (o : FixedPointValue) : Spec.offsetOf o = o.toInt := by
+  cases o <;> rfl
+
+theorem FixedPointValue.toInt_ge (o : FixedPointValue) : -(2 ^ 63 : Int) ≤ o.toInt := by
+  cases o with
+  | i32 v => have := BitVec.le_toInt v; simp only [FixedPointValue.toInt]; omega
+  | i64 v => have := BitVec.le_toInt v; simp only [FixedPointValue.toInt]; omega
+
+/-- THE PROPERTY AGAINST EXACT ARITHMETIC.  `Spec.realValue` (Spec/Fixed.lean) computes
+    `value x quantization + offset` in exact integer / dyadic arithmetic and speaks only where
+    double precision is exact (the value and the product have at most 53 significant bits),
+    the product is not negative and the sum lies in `0 .. 2^63`.  Wherever it speaks, the
+    model of the conversion — with its rounding, its saturating cast and its wrapping
+    addition — yields exactly that number. -/
+theorem C18_exact (a : Argument) (n : Nat) (h : Spec.realValue a = .exactly n) :
+    a.toRealValue = some n := by
+  unfold Spec.realValue at h
+  split at h
+  · rename_i fp hk hf
+    rw [Spec.intOf_eq] at h
+    split at h
+    · split at h <;> cases h
+    · rename_i v hv
+      split at h
+      · cases h
+      · rename_i qneg m e hq
+        simp only [] at h
+        split at h
+        · cases h
+        · rename_i hfit
+          split at h
+          · cases h
+          · rename_i hs
+            rw [Spec.offsetOf_eq] at h
+            generalize hpd : (if e ≥ 0 then v.natAbs * m * 2 ^ e.toNat
+                          else v.natAbs * m / 2 ^ (-e).toNat) = p at h
+            split at h
+            · rename_i hsum
+              cases h
+              subst hpd
+              have hfit1 : Spec.fits53 v.natAbs = true := by
+                cases hb : Spec.fits53 v.natAbs <;> simp_all
+              have hfit2 : Spec.fits53 (v.natAbs * m) = true := by
+                cases hb : Spec.fits53 (v.natAbs * m) <;> simp_all
+              have hge := FixedPointValue.toInt_ge fp.offset
+              have hp : (if e ≥ 0 then v.natAbs * m * 2 ^ e.toNat
+                          else v.natAbs * m / 2 ^ (-e).toNat) < 2 ^ 64 := by
+                generalize (if e ≥ 0 then v.natAbs * m * 2 ^ e.toNat
+                          else v.natAbs * m / 2 ^ (-e).toNat) = p at hsum
+                omega
+              have hs' : ¬ (v.natAbs * m ≠ 0 ∧ ((decide (v < 0)) != qneg) = true) := by
+                simpa using hs
+              have htp := truncatedProduct_exact v fp.quantization qneg m e hq hfit1 hfit2 hs' hp
+              have hkind : (∃ w, a.typeInfo.kind = .signedFixedPoint w) ∨
+                  (∃ w, a.typeInfo.kind = .unsignedFixedPoint w) := by
+                cases hkk : a.typeInfo.kind <;> simp_all [Spec.isFixedPointKind]
+              have := C18_sum a fp v hkind hf hv (by rw [htp]; exact hsum.1) (by rw [htp]; exact hsum.2)
+              rw [this, htp]
+            · cases h
+  · cases h
+
+/-- ... and wherever the exact-arithmetic reference says "nothing", the model yields nothing -/
+theorem C18_exact_nothing (a : Argument) (h : Spec.realValue a = .nothing) :
+    a.toRealValue = none := by
+  apply Classical.byContradiction
+  intro hne
+  obtain ⟨hk, hf, hv⟩ := C18_none_unless a hne
+  obtain ⟨fp, hf⟩ := Option.isSome_iff_exists.mp hf
+  obtain ⟨v, hv⟩ := Option.isSome_iff_exists.mp hv
+  have hkind : Spec.isFixedPointKind a.typeInfo.kind = true := by
+    rcases hk with ⟨w, hk⟩ | ⟨w, hk⟩ <;> rw [hk] <;> rfl
+  unfold Spec.realValue at h
+  rw [hkind, hf] at h
+  simp only [Spec.intOf_eq, hv] at h
+  split at h
+  · cases h
+  · split at h
+    · cases h
+    · split at h
+      · cases h
+      · split at h <;> split at h <;> cases h
+
 -- non-vacuity: degrees Celsius example of the source comment (7785 * 0.01 - 50 = 27),
 -- and the input that used to panic (1000 * 1.0 - 200 = 800)
 example : Argument.toRealValue
@@ -148,5 +234,14 @@ example : Argument.toRealValue
       name := none, unit := none,
       fixedPoint := some { quantization := 0x3f800000#32, offset := .i32 (BitVec.ofInt 32 (-200)) },
       value := .i32 1000#32 } = some 800 := by decide
+
+-- non-vacuity of `C18_exact`: the exact-arithmetic reference speaks on the Celsius example
+-- (7785 * 0.01f32 = 77.849..., truncated 77, minus 50)
+example : Spec.realValue
+    { typeInfo := { kind := .signedFixedPoint .w32, coding := .ascii, hasVariableInfo := false,
+                    hasTraceInfo := false },
+      name := none, unit := none,
+      fixedPoint := some { quantization := 0x3c23d70a#32, offset := .i32 (BitVec.ofInt 32 (-50)) },
+      value := .i32 7785#32 } = .exactly 27 := by decide +kernel
 
 end Dlt
